@@ -66,7 +66,8 @@ def tauf (taup es : α) : α :=
   let e2m := (1 : α) - es * RealLike.abs es
   let tau := if RealLike.ltb (70 : α) (RealLike.abs taup) then taup * RealLike.exp (eatanhe (1 : α) es) else taup / e2m
   let stol := tol * RealLike.max (1 : α) (RealLike.abs taup)
-  if !(RealLike.ltb (RealLike.abs tau) taumax) then tau else taufLoop taup es e2m stol 5 tau
+  -- (the early exit is taken only with the asymptotic guess, |taup| > 70: b3c5a1d)
+  if !(RealLike.ltb (RealLike.abs tau) taumax) && !(RealLike.leb (RealLike.abs taup) (70 : α)) then tau else taufLoop taup es e2m stol 5 tau
 
 /-- did the Newton loop of `Math::tauf` stop by its tolerance (and not by the iteration cap)?  The cap is silent in the
     code (`GEOGRAPHICLIB_PANIC` is `false` for binary64): the correspondence compares values only where the coded loop
@@ -83,7 +84,7 @@ def taufConv (taup es : α) : Bool :=
   let e2m := (1 : α) - es * RealLike.abs es
   let tau := if RealLike.ltb (70 : α) (RealLike.abs taup) then taup * RealLike.exp (eatanhe (1 : α) es) else taup / e2m
   let stol := tol * RealLike.max (1 : α) (RealLike.abs taup)
-  if !(RealLike.ltb (RealLike.abs tau) taumax) then true else taufLoopConv taup es e2m stol 5 tau
+  if !(RealLike.ltb (RealLike.abs tau) taumax) && !(RealLike.leb (RealLike.abs taup) (70 : α)) then true else taufLoopConv taup es e2m stol 5 tau
 
 /-! ## PolarStereographic -/
 
